@@ -38,6 +38,8 @@ const struct tjv_step TJV_PROG[] = {
   { K_ABSORB, 0, 0, MD_ABS, LEAFSRC },
 #elif PROG == 13
   { K_TAG, 0x70, 0, 0, 0 },
+#elif PROG == 99
+  /* empty program: the specification makes no cipher call at all */
 #endif
   { K_DONE, 0, 0, 0, 0 }, { K_DONE, 0, 0, 0, 0 }, { K_DONE, 0, 0, 0, 0 }
 };
